@@ -139,7 +139,7 @@ func init() {
 				fillEvents(ex, rec.Events)
 			}
 			ex.asserts = append(ex.asserts, rec)
-			panic(pathAbort{"stop", "assertion " + id + " violated"})
+			return nil // keep going: later assertions of the same path are still evaluated
 		case symBool:
 			ex.sv.send("(push)")
 			ex.sv.send("(assert " + tNot(c.t).s + ")")
